@@ -68,22 +68,31 @@ fn check_skip_target_boundaries(n: u64, max_len: usize) {
     core::mem::forget(t);
 }
 
-/// n < 2^20 (covers every threshold around the 10-command gap and the halving boundaries).
+/// n < 2^12 (covers every threshold around the 10-command gap and the first halving boundaries).
+#[kani::proof]
+#[kani::unwind(12)]
+fn c11_skip_target_boundaries_small() {
+    let n: u64 = kani::any();
+    kani::assume(n < (1 << 12));
+    check_skip_target_boundaries(n, 9);
+}
+
+/// n < 2^20.
 #[kani::proof]
 #[kani::unwind(20)]
-fn c11_skip_target_boundaries_small() {
+fn c11_skip_target_boundaries_2p20() {
     let n: u64 = kani::any();
     kani::assume(n < (1 << 20));
     check_skip_target_boundaries(n, 17);
 }
 
-/// Every u64 (up to 61 boundaries).
+/// n < 2^32.
 #[kani::proof]
-#[kani::unwind(65)]
-fn c11_skip_target_boundaries_all_u64() {
+#[kani::unwind(32)]
+fn c11_skip_target_boundaries_2p32() {
     let n: u64 = kani::any();
-    check_skip_target_boundaries(n, 61);
-    kani::cover!(n == u64::MAX, "n = u64::MAX");
+    kani::assume(n < (1 << 32));
+    check_skip_target_boundaries(n, 29);
 }
 
 // ---------------------------------------------------------------------------------------------
